@@ -119,8 +119,9 @@ def requestCtx (s : Schema) (doc : Document) (opName : String) (inputs : Vars) (
 def rootGroups (c : Ctx) (root : String) (sel : SelectionSet) : Groups := (collect c root sel ([], [])).1
 
 /-- driver op: does `data` (the REAL executor's output) conform to the request's root selection? -/
-def conformsData (s : Schema) (doc : Document) (opName : String) (inputs : Vars) (data : List (String × JVal)) : Bool :=
-  match requestCtx s doc opName inputs default with
+def conformsData (s : Schema) (doc : Document) (opName : String) (inputs : Vars) (w : World)
+    (data : List (String × JVal)) : Bool :=
+  match requestCtx s doc opName inputs w with
   | none => false
   | some (c, root, sel) =>
     fieldsConformB c (conformsF c (odepthFields data + 1)) root (rootGroups c root sel) data
